@@ -94,10 +94,12 @@ Qed.
 Lemma inv_E : Inv E [].
 Proof. repeat split. constructor. Qed.
 
-Lemma inv_single v p : Inv (single (mk v) p) [(p, v)].
+Lemma inv_single_gen x v p : Fresh size elem agg aggf Pending x -> elem x = v -> Inv (single x p) [(p, v)].
 Proof.
-  repeat split; simpl; auto. rewrite <- (mk_elem v) at 2. apply Rep_single. apply mk_fresh.
+  intros Hf <-. repeat split; simpl; auto. now apply Rep_single.
 Qed.
+Lemma inv_single v p : Inv (single (mk v) p) [(p, v)].
+Proof. apply inv_single_gen; auto. Qed.
 
 Lemma inv_merge a b pa pb : Inv a pa -> Inv b pb -> Inv (merge update push a None b None) (pa ++ pb).
 Proof.
@@ -163,14 +165,18 @@ Proof.
   - now rewrite <- drop_map.
 Qed.
 
-Lemma inv_insert t k v p pxs : Inv t pxs ->
-  Inv (insert_at update push size t k (mk v) p) (firstn (Z.to_nat k) pxs ++ (p, v) :: skipn (Z.to_nat k) pxs).
+(** insert_at of ANY fresh item (a newly made one, or the item object that remove_at returned) *)
+Lemma inv_insert_gen t k x v p pxs : Inv t pxs -> Fresh size elem agg aggf Pending x -> elem x = v ->
+  Inv (insert_at update push size t k x p) (firstn (Z.to_nat k) pxs ++ (p, v) :: skipn (Z.to_nat k) pxs).
 Proof.
-  intros HI. unfold insert_at. destruct (split_at update push size t None k) as [l r] eqn:ES.
+  intros HI Hf Hv. unfold insert_at. destruct (split_at update push size t None k) as [l r] eqn:ES.
   destruct (inv_split_at t k pxs l r HI ES) as [Hl Hr].
   change ((p, v) :: skipn (Z.to_nat k) pxs) with ([(p, v)] ++ skipn (Z.to_nat k) pxs). rewrite app_assoc.
-  apply inv_merge; auto. apply inv_merge; auto. apply inv_single.
+  apply inv_merge; auto. apply inv_merge; auto. now apply inv_single_gen.
 Qed.
+Lemma inv_insert t k v p pxs : Inv t pxs ->
+  Inv (insert_at update push size t k (mk v) p) (firstn (Z.to_nat k) pxs ++ (p, v) :: skipn (Z.to_nat k) pxs).
+Proof. intros HI. apply inv_insert_gen; auto. Qed.
 
 Lemma inv_remove t k pxs : Inv t pxs ->
   Inv (fst (remove_at update push size t k)) (firstn (Z.to_nat k) pxs ++ skipn (S (Z.to_nat k)) pxs).
@@ -223,7 +229,7 @@ Lemma step_inv st pst ps o pst' ps' :
   Forall2 Inv (fst (fst (step update push size modify elem agg st ps (cv o)))) pst'
   /\ snd (fst (step update push size modify elem agg st ps (cv o))) = ps'.
 Proof.
-  intros H HS. destruct o; simpl in HS |- *.
+  intros H HS. destruct o; [simpl in HS |- * .. | cbn [pstep conv step] in HS |- *].
   - injection HS as <- <-. split; auto. apply Forall2_app; auto. constructor; auto. apply inv_E.
   - destruct (next_prio ps) as [p ps1]. injection HS as <- <-. split; auto.
     apply Forall2_app; auto. constructor; auto. apply inv_single.
@@ -274,6 +280,33 @@ Proof.
     rewrite <- (replace_nth_same pst i xs Ex). apply F2_replace; auto.
   - injection HS as <- <-. destruct (nth_error st i); auto.
   - injection HS as <- <-. destruct (nth_error st i); auto.
+  - (* Move *)
+    pose proof (F2_nth Inv st pst i H) as Hi. pose proof (F2_nth Inv st pst j H) as Hj.
+    destruct (nth_error st i) as [t|], (nth_error pst i) as [xs|] eqn:Ex; simpl in Hi; try contradiction;
+      [|injection HS as <- <-; auto].
+    destruct (nth_error st j) as [tj|], (nth_error pst j) as [xj|]; simpl in Hj; try contradiction;
+      [|injection HS as <- <-; auto].
+    pose proof (inv_remove t k xs Hi) as HR.
+    destruct Hi as (_ & HRep & _).
+    destruct (remove_at update push size t k) as [t' res] eqn:ER. cbn [fst] in HR.
+    destruct (remove_at_rep _ _ _ _ _ _ _ _ _ LAW t k _ t' res HRep ER) as (_ & Hres & Hfr).
+    destruct (nth_error xs (Z.to_nat k)) as [pvx|] eqn:En.
+    + rewrite (map_nth_error snd _ _ En) in Hres.
+      destruct res as [x|]; simpl in Hres; [|discriminate]. injection Hres as Hv.
+      assert (H1 : Forall2 Inv (replace_nth i t' st)
+                     (replace_nth i (firstn (Z.to_nat k) xs ++ skipn (S (Z.to_nat k)) xs) pst)) by (apply F2_replace; auto).
+      pose proof (F2_nth Inv _ _ j H1) as Hj1.
+      destruct (nth_error (replace_nth i t' st) j) as [u|];
+        destruct (nth_error (replace_nth i (firstn (Z.to_nat k) xs ++ skipn (S (Z.to_nat k)) xs) pst) j) as [ys|];
+        simpl in Hj1; try contradiction.
+      * destruct (next_prio ps) as [p ps1]. injection HS as <- <-. split; auto.
+        apply F2_replace; auto. apply inv_insert_gen; auto.
+      * injection HS as <- <-. auto.
+    + apply nth_error_None in En.
+      assert (En' : nth_error (map snd xs) (Z.to_nat k) = None) by (apply nth_error_None; now rewrite map_length).
+      rewrite En' in Hres.
+      destruct res as [x|]; simpl in Hres; [discriminate|]. injection HS as <- <-. split; auto.
+      rewrite <- (replace_nth_same pst i xs Ex). apply F2_replace; auto. rewrite firstn_all2, skipn_all2 in HR by lia. now rewrite app_nil_r in HR.
 Qed.
 
 Lemma run_inv ops : forall st pst ps want,
